@@ -87,6 +87,7 @@ fn main() {
             "splice_duplicate",
             "splice_swap",
             "append_trailing",
+            "crafted_encoding",
         ],
         probe_names: &["damaged_accepted", "damaged_rejected"],
         real: vec![
